@@ -31,7 +31,9 @@ def _sig_hash(j: dict, k: str) -> str:
     return _md5("dir:" + json.dumps(items)) + ".dir"
 
 
-def build_index(j: dict, backend: str, path: str | None):
+def build_index(j: dict, backend: str, path: str | None, empty: int = 0):
+    """empty: how "no hash" is spelled - 0: None, 1: HashInfo(), 2: HashInfo("md5", None) (what loading a directory object
+    whose entries lack the store's algorithm gives): all three mean the same."""
     from dvc_data.hashfile.hash_info import HashInfo
     from dvc_data.hashfile.meta import Meta
     from dvc_data.index import DataIndex, DataIndexEntry
@@ -44,7 +46,7 @@ def build_index(j: dict, backend: str, path: str | None):
         meta = {"none": None, "d": Meta(isdir=True), "f1": Meta(size=1), "f2": Meta(size=2, isexec=True),
                 "f3": Meta(size=1, etag="E1"), "f4": Meta(size=9, etag="E1")}[e["m"]]
         if e["h"] == "none":
-            hi = None
+            hi = (None, HashInfo(), HashInfo("md5", None))[empty]
         elif e["h"] == "D":
             hi = HashInfo("md5", _sig_hash(j, k))
         else:
@@ -72,7 +74,7 @@ def run_call(o, n, o_none, n_none, opts, backend, tmp):
         if is_none:
             return None
         p = os.path.join(tmp, f"{tag}-{random.getrandbits(48):x}.db") if backend == "sqlite" else None
-        return build_index(j, backend, p)
+        return build_index(j, backend, p, empty={"o": opts.get("eo", 0), "n": opts.get("en", 0)}[tag])
 
     kw = dict(with_unchanged=opts["unchanged"], hash_only=opts["hash_only"], meta_only=opts["meta_only"],
               shallow=opts["shallow"])
@@ -130,6 +132,8 @@ def opt_sets():
                     "key": key, "unknown": False})
         if key == "none":
             out.append({**out[-1], "unknown": True})
+            # "no hash" spelled as an empty HashInfo object on one side or both
+            out.append({**out[-2], "eo": 1 + len(out) % 2, "en": len(out) % 3})
     return out
 
 
